@@ -1,27 +1,303 @@
-//! C09 — not built yet (stub so that the binary links; `./check C09` reports INFRA until replaced).
+//! C09 — names resolve lexically; consistent renaming changes nothing.
+//! Metamorphic (two consistent renamings of one GenAST => identical Lua) + planted out-of-scope uses.
+use crate::common::*;
 use arbitrary::Unstructured;
-use vcore::{Check, Labels, Plan, Tier, Verdict};
+use serde::{Deserialize, Serialize};
+use syltmodel::ast::*;
+use syltmodel::gen::{Gen, GenCfg};
+use syltmodel::plant;
+use syltmodel::print::{Plan as SurfacePlan, STD_NAMES, SYLT_KEYWORDS};
+use syltmodel::scope;
+use vcore::{compile, Check, Labels, Outcome, Plan, Project, Stats, Step, Tape, Tier, Verdict};
 
-pub struct Stub;
-pub const CHECK: Stub = Stub;
-pub fn plan(_t: Tier) -> Plan {
-    Plan::new(1, 16)
+pub struct C09;
+pub const CHECK: C09 = C09;
+pub fn plan(t: Tier) -> Plan {
+    Plan::new(t.pick(4_000, 80_000), t.pick(3400, 4600))
 }
-impl Check for Stub {
-    type Case = u8;
+
+#[derive(Clone, Serialize, Deserialize)]
+pub enum Kind {
+    /// rename binders: `names` is the shadowing plan (index = VarId; empty = keep)
+    Rename { names: Vec<String> },
+    /// an out-of-scope use planted at statement site `site`: the name of variable `var` is used there
+    OutOfScope { site: usize, var: VarId, where_: String },
+}
+
+#[derive(Clone, Serialize, Deserialize)]
+pub struct Case {
+    pub prog: Program,
+    pub kind: Kind,
+    #[serde(default)]
+    pub source: String,
+}
+
+fn binders_cfg(thorough: bool) -> GenCfg {
+    let mut cfg = GenCfg::core(thorough);
+    cfg.block_depth = 4;
+    cfg.scenario_weight = 3;
+    cfg
+}
+
+/// maximal legal shadowing, greedily: every binder tries to take the name of another binder
+fn shadow_plan(t: &mut Tape, p: &Program) -> (Vec<String>, usize) {
+    let mut names: Vec<String> = p.vars.iter().map(|v| v.name.clone()).collect();
+    let ren = scope::renamable(p);
+    if ren.is_empty() {
+        return (names, 0);
+    }
+    let mut renamed = 0;
+    // a few fresh-but-odd names as well
+    let extra = ["x", "i", "tmp", "value", "a1", "_q", "n"];
+    let rounds = ren.len() * 2;
+    for _ in 0..rounds {
+        let b = *t.pick(&ren);
+        let cand: String = if t.chance(1, 6) {
+            extra[t.below(extra.len())].to_string()
+        } else {
+            let o = *t.pick(&ren);
+            if o == b {
+                continue;
+            }
+            names[o as usize].clone()
+        };
+        if cand == names[b as usize] || SYLT_KEYWORDS.contains(&cand.as_str()) || STD_NAMES.contains(&cand.as_str()) {
+            continue;
+        }
+        // type / variant names start with an upper-case letter, case captures with a lower-case one
+        let old = std::mem::replace(&mut names[b as usize], cand);
+        if scope::check(p, &names).ok {
+            renamed += 1;
+        } else {
+            names[b as usize] = old;
+        }
+    }
+    (names, renamed)
+}
+
+impl Check for C09 {
+    type Case = Case;
     fn id(&self) -> &'static str {
         "C09"
     }
-    fn generate(&self, _u: &mut Unstructured, _tier: Tier) -> Option<u8> {
-        None
+    fn generate(&self, u: &mut Unstructured, tier: Tier) -> Option<Case> {
+        let mut t = Tape::new(u);
+        let prog = Gen::new(&mut t, binders_cfg(tier == Tier::Thorough)).program();
+        if t.chance(3, 4) {
+            let (names, _) = shadow_plan(&mut t, &prog);
+            let mut plan = SurfacePlan::default();
+            plan.names = Some(names.clone());
+            let source = render(&prog, &plan).text;
+            Some(Case { prog, kind: Kind::Rename { names }, source })
+        } else {
+            // an out-of-scope use: a local of the same global function that is not visible at the site
+            let (stmts, _) = plant::sites(&prog);
+            if stmts.is_empty() {
+                return None;
+            }
+            for _ in 0..8 {
+                let si = t.below(stmts.len());
+                let site = &stmts[si];
+                // candidates: locals / params / case bindings declared inside the same global definition
+                let mut inside: Vec<VarId> = Vec::new();
+                if let Some(g) = prog.globals.iter().find(|g| g.var == site.ctx.global) {
+                    collect_binders(&g.value, &mut inside);
+                }
+                let cands: Vec<VarId> = inside
+                    .into_iter()
+                    .filter(|v| !site.ctx.scope.contains(v) && prog.var(*v).kind != VarKind::SelfVar)
+                    .collect();
+                if cands.is_empty() {
+                    continue;
+                }
+                let var = *t.pick(&cands);
+                let where_ = format!("{:?}", site.ctx.placement);
+                let q = plant::insert_stmt(&prog, si, Stmt::Raw(format!("zzq9 :: {}", prog.var(var).name)));
+                let source = render(&q, &SurfacePlan::default()).text;
+                return Some(Case { prog, kind: Kind::OutOfScope { site: si, var, where_ }, source });
+            }
+            None
+        }
     }
-    fn evaluate(&self, _case: &u8, _labels: &mut Labels) -> Verdict {
-        Verdict::Discard("stub".into())
+
+    fn evaluate(&self, case: &Case, labels: &mut Labels) -> Verdict {
+        let a = SurfacePlan::default();
+        let pa = render(&case.prog, &a);
+        let oa = compile(&Project::single(pa.text.clone()));
+        let la = match &oa {
+            Outcome::Accepted(b) => b,
+            Outcome::Rejected { errors, .. } => {
+                labels.add(format!("base-rejected:{}:{}", errors[0].kind, errors[0].sub));
+                return Verdict::Discard("base-rejected".into());
+            }
+            Outcome::Panicked { .. } => return Verdict::Discard("compiler-panicked".into()),
+        };
+        labels.add("accepted");
+        match &case.kind {
+            Kind::Rename { names } => {
+                let rep = scope::check(&case.prog, names);
+                if !rep.ok {
+                    return Verdict::Discard("renaming-not-consistent".into());
+                }
+                let mut b = SurfacePlan::default();
+                b.names = Some(names.clone());
+                let pb = render(&case.prog, &b);
+                let renamed = names.iter().zip(case.prog.vars.iter()).filter(|(n, v)| **n != v.name).count();
+                if rep.shadowed_refs > 0 {
+                    labels.add("shadowing");
+                }
+                let ob = compile(&Project::single(pb.text.clone()));
+                let lb = match &ob {
+                    Outcome::Accepted(b) => b,
+                    Outcome::Rejected { errors, .. } => {
+                        return Verdict::Violation {
+                            signature: format!("C09/renamed-rejected/{}:{}", errors[0].kind, message_class(&errors[0].message)),
+                            detail: format!(
+                                "consistent renaming (to names that shadow outer/earlier binders) makes the program unacceptable: {}\n--- distinct names ---\n{}\n--- renamed ---\n{}",
+                                ob.short(),
+                                pa.text,
+                                pb.text
+                            ),
+                        };
+                    }
+                    Outcome::Panicked { .. } => return Verdict::Discard("compiler-panicked".into()),
+                };
+                if la != lb {
+                    let sa = String::from_utf8_lossy(la).to_string();
+                    let sb = String::from_utf8_lossy(lb).to_string();
+                    let xa: Vec<&str> = sa.lines().collect();
+                    let xb: Vec<&str> = sb.lines().collect();
+                    let mut first = 0;
+                    while first < xa.len().min(xb.len()) && xa[first] == xb[first] {
+                        first += 1;
+                    }
+                    return Verdict::Violation {
+                        signature: "C09/bytes-differ".into(),
+                        detail: format!(
+                            "a consistent renaming changes the emitted Lua (chunk line {}: {:?} vs {:?}): some identifier does not resolve to its innermost enclosing declaration\n--- distinct names ---\n{}\n--- renamed ---\n{}",
+                            first + 1,
+                            xa.get(first),
+                            xb.get(first),
+                            pa.text,
+                            pb.text
+                        ),
+                    };
+                }
+                Verdict::Pass { nontrivial: renamed >= 2 && rep.shadowed_refs >= 2 }
+            }
+            Kind::OutOfScope { site, var, where_ } => {
+                labels.add(format!("out-of-scope:{}", where_));
+                let name = case.prog.var(*var).name.clone();
+                let q = plant::insert_stmt(&case.prog, *site, Stmt::Raw(format!("zzq9 :: {}", name)));
+                let pq = render(&q, &a);
+                let oq = compile(&Project::single(pq.text.clone()));
+                match &oq {
+                    Outcome::Rejected { errors, bytes_written } => {
+                        if *bytes_written > 0 {
+                            return Verdict::Violation { signature: "C09/wrote-lua-on-error".into(), detail: oq.short() };
+                        }
+                        labels.add(format!("rejected-as-expected:{}", errors[0].kind));
+                        Verdict::Pass { nontrivial: true }
+                    }
+                    Outcome::Accepted(_) => Verdict::Violation {
+                        signature: format!("C09/out-of-scope-use-accepted/{}", where_),
+                        detail: format!(
+                            "`{}` is used at a place where no declaration of that name is in scope (its declaration lies in a scope that has ended, or comes later), yet the program is accepted\n--- source (the planted line is `zzq9 :: {}`) ---\n{}",
+                            name, name, pq.text
+                        ),
+                    },
+                    Outcome::Panicked { .. } => Verdict::Discard("compiler-panicked".into()),
+                }
+            }
+        }
+    }
+
+    fn simplify_at(&self, case: &Case, idx: usize) -> Step<Case> {
+        match &case.kind {
+            Kind::Rename { names } => {
+                let pc = ProgCase { prog: case.prog.clone(), plan: SurfacePlan::default(), source: String::new() };
+                match shrink_step(&pc, idx) {
+                    Step::End => Step::End,
+                    Step::Skip => Step::Skip,
+                    Step::Candidate(p) => {
+                        if !scope::check(&p.prog, names).ok {
+                            return Step::Skip;
+                        }
+                        let mut b = SurfacePlan::default();
+                        b.names = Some(names.clone());
+                        let source = render(&p.prog, &b).text;
+                        Step::Candidate(Case { prog: p.prog, kind: case.kind.clone(), source })
+                    }
+                }
+            }
+            // site indices shift when the program changes: not shrunk structurally
+            Kind::OutOfScope { .. } => Step::End,
+        }
+    }
+    fn sample(&self, case: &Case) -> serde_json::Value {
+        vcore::truncate_value(serde_json::json!({ "kind": match &case.kind { Kind::Rename{..} => "rename", Kind::OutOfScope{..} => "out-of-scope" }, "source": case.source }), 2000)
     }
     fn rule(&self) -> String {
-        "stub".into()
+        "cases (3/4): a random well-typed GenAST program with all binders distinct (plan A) and a greedy maximal-shadowing renaming \
+         (plan B: a binder takes the name of another binder or a short common name whenever an independent model of lexical resolution \
+         - innermost enclosing declaration visible at that point, function definitions visible in their own body, other locals after \
+         their definition, block/branch/arm/loop-body scopes, parameters, case bindings, then globals - still resolves every reference \
+         to its intended binder; `self`, fields, variants, types, std names are never renamed); oracle: A and B emit byte-identical Lua. \
+         cases (1/4): a use of a local/parameter/case binding of the same top-level function planted at a statement position where that \
+         binder is not in scope (its block, branch, arm, loop body or function has ended, or it is declared later); oracle: rejected, \
+         zero bytes written. non-trivial = >= 2 binders renamed and >= 2 references that pass a hidden same-named binder, or any negative \
+         case; distinct by case hash"
+            .into()
     }
-    fn health(&self, _s: &vcore::Stats) -> Result<(), String> {
-        Err("check not built yet".into())
+    fn health(&self, s: &Stats) -> Result<(), String> {
+        if s.evaluations < 200 {
+            return Ok(());
+        }
+        if (s.label("accepted") as f64) < 0.5 * s.evaluations as f64 {
+            return Err("fewer than half of the base programs compile".into());
+        }
+        if s.label("shadowing") * 3 < s.evaluations {
+            return Err(format!("shadowing renamings are rare: {} of {}", s.label("shadowing"), s.evaluations));
+        }
+        Ok(())
     }
+}
+
+fn collect_binders(x: &Expr, out: &mut Vec<VarId>) {
+    fn blk(b: &Block, out: &mut Vec<VarId>) {
+        for s in &b.stmts {
+            match s {
+                Stmt::Def { var, .. } => out.push(*var),
+                Stmt::Loop { body, .. } => blk(body, out),
+                Stmt::Block(b) => blk(b, out),
+                _ => {}
+            }
+        }
+    }
+    syltmodel::walk::walk_expr(x, &mut |e| match &e.kind {
+        EKind::Lambda(d) => {
+            out.extend(d.params.iter().copied());
+            blk(&d.body, out);
+        }
+        EKind::If(bs, d) => {
+            for (_, b) in bs {
+                blk(b, out);
+            }
+            if let Some(d) = d {
+                blk(d, out);
+            }
+        }
+        EKind::Case { arms, default, .. } => {
+            for a in arms {
+                if let Some(b) = a.bind {
+                    out.push(b);
+                }
+                blk(&a.body, out);
+            }
+            if let Some(d) = default {
+                blk(d, out);
+            }
+        }
+        _ => {}
+    });
 }
